@@ -197,6 +197,9 @@ pub enum Cmp {
     /// not symmetric either, the other way round (like a comparison of modification times): altered
     /// iff the content differs or the current `|t<n>` is newer than the recorded one
     Newer,
+    /// depends on the upstream job the question is asked for (as the production strategy does, by job
+    /// type): records of Ephemeral upstreams are compared exactly, all others modulo `|...`
+    ExactEph,
 }
 
 fn stamp(rec: &str) -> i64 {
@@ -292,6 +295,14 @@ impl Cfg {
             Cmp::Noise => strip(last) != strip(cur),
             Cmp::Mono => strip(last) != strip(cur) || stamp(cur) < stamp(last),
             Cmp::Newer => strip(last) != strip(cur) || stamp(cur) > stamp(last),
+            Cmp::ExactEph => {
+                let exact = self.graph.idx(up_id).map(|u| self.graph.jobs[u].kind == Kind::E).unwrap_or(false);
+                if exact {
+                    last != cur
+                } else {
+                    strip(last) != strip(cur)
+                }
+            }
             Cmp::Prod => {
                 let g = &self.graph;
                 let parts: Vec<String> = match (g.idx(up_id), g.idx(down_id)) {
